@@ -136,9 +136,12 @@ fn check_value(ctx: &mut Ctx, who: &str, v: &dyn Typed, keys: &[(&str, bool)], r
         let ill = items_lossless(&pll);
         let back_l = reparse(Some(&pl), None).map(|b| items_lossy(&b.to_lossy()));
         let back_ll = reparse(None, Some(&pll)).map(|b| items_lossy(&b.to_lossy()));
-        (il, ill, back_l, back_ll, pll.to_string())
+        // the paragraphs also survive printing: re-read their text with the matching reader
+        let text_l = if il.is_empty() { Ok(vec![]) } else { lossy::Paragraph::from_str(&pl.to_string()).map(|p| items_lossy(&p)).map_err(|e| e.to_string()) };
+        let text_ll = if ill.is_empty() { Ok(vec![]) } else { Paragraph::from_str(&pll.to_string()).map(|p| items_lossless(&p)).map_err(|e| e.to_string()) };
+        (il, ill, back_l, back_ll, pll.to_string(), text_l, text_ll, pl.to_string())
     });
-    let (il, ill, back_l, back_ll, printed) = match res {
+    let (il, ill, back_l, back_ll, printed, text_l, text_ll, printed_l) = match res {
         Ok(x) => x,
         Err(f) => {
             fail(ctx, &f.class(), who, "to/from_paragraph", json!({"failure": f.json()}));
@@ -148,6 +151,17 @@ fn check_value(ctx: &mut Ctx, who: &str, v: &dyn Typed, keys: &[(&str, bool)], r
     if il != ill {
         fail(ctx, "backends-differ", who, "to_paragraph", json!({"lossy": il, "lossless": ill}));
         return false;
+    }
+    for (t, name, txt) in [(&text_l, "lossy", &printed_l), (&text_ll, "lossless", &printed)] {
+        // (an empty first line is not a value line: compare up to it)
+        let norm = |v: &Vec<(String, String)>| v.iter().map(|(k, x)| (k.clone(), x.trim_start_matches('\n').to_string())).collect::<Vec<_>>();
+        match t {
+            Ok(items) if norm(items) == norm(&il) => {}
+            other => {
+                fail(ctx, "printed-paragraph-rereads-differently", who, name, json!({"paragraph": il, "printed": clip(txt), "reread": format!("{:?}", other)}));
+                return false;
+            }
+        }
     }
     // names in declaration order, absent options omitted
     let order: Vec<&str> = il.iter().map(|(k, _)| k.as_str()).collect();
